@@ -2,7 +2,10 @@ use crate::engine::Ctx;
 
 pub mod c01;
 pub mod c04;
+pub mod c15;
 pub mod c17;
+pub mod c18;
+pub mod c34;
 pub mod c35;
 pub mod perp;
 pub mod pure;
@@ -20,7 +23,10 @@ pub const REGISTRY: &[(&str, fn(&mut Ctx))] = &[
     ("C12", perp::run_c12),
     ("C13", perp::run_c13),
     ("C14", pure::run_c14),
+    ("C15", c15::run),
     ("C17", c17::run),
+    ("C18", c18::run),
+    ("C34", c34::run),
     ("C35", c35::run),
     ("SMOKE", smoke::run),
 ];
